@@ -395,14 +395,19 @@ def find_synsets(
         cte = f'WITH wordforms(s) AS (VALUES {_vs(forms)})'
         or_norm = 'OR normalized_form IN wordforms' if normalized else ''
         and_rank = '' if search_all_forms else 'AND rank = 0'
+        # only senses of the selected lexicons link a form to a synset
+        and_lex = ''
+        if lexicon_rowids:
+            and_lex = f'AND _s.lexicon_rowid IN ({_qs(lexicon_rowids)})'
         join = f'''\
           JOIN (SELECT _s.entry_rowid, _s.synset_rowid, _s.entry_rank
                   FROM forms AS f
                   JOIN senses AS _s ON _s.entry_rowid = f.entry_rowid
-                 WHERE (f.form IN wordforms {or_norm}) {and_rank}) AS s
+                 WHERE (f.form IN wordforms {or_norm}) {and_rank} {and_lex}) AS s
             ON s.synset_rowid = ss.rowid
         '''.strip()
         params.extend(forms)
+        params.extend(lexicon_rowids)
         order = 'ORDER BY s.entry_rowid, s.entry_rank'
     if pos:
         conditions.append('ss.pos = ?')
